@@ -123,6 +123,28 @@ pub fn check_catalog(db_dir: &Path, model: &DbState, scratch: &Path) -> Vec<Stri
             if pfk != mfk {
                 errs.push(format!("table {}.{}: FOREIGN KEY persisted={:?} model={:?}", tn, mc.name, pfk, mfk));
             }
+            // referential actions: the dialect declares ON DELETE CASCADE or nothing, never ON UPDATE
+            if let Some(f) = &mc.fk {
+                let pact = pc.constraints().iter().find_map(|k| match k {
+                    Constraint::ForeignKey { on_delete, on_update, .. } => Some((format!("{:?}", on_delete), format!("{:?}", on_update))),
+                    _ => None,
+                });
+                if let Some((pd, pu)) = pact {
+                    let cascade_declared = f.on_delete == super::ops::OnDelete::Cascade;
+                    let pd_cascade = pd.contains("Cascade");
+                    let pu_set = pu.contains("Cascade") || pu.contains("SetNull") || pu.contains("SetDefault");
+                    if pd_cascade != cascade_declared || pu_set {
+                        errs.push(format!(
+                            "table {}.{}: FOREIGN KEY actions persisted ON DELETE {} / ON UPDATE {}, declared ON DELETE {}",
+                            tn,
+                            mc.name,
+                            pd,
+                            pu,
+                            if cascade_declared { "CASCADE" } else { "(none)" }
+                        ));
+                    }
+                }
+            }
         }
         for mi in &mt.indexes {
             match t.indexes().iter().find(|i| i.name() == mi.name) {
